@@ -113,6 +113,20 @@ func (r *Run) Expired() bool {
 	return false
 }
 
+// ExpiredFrac is Expired for a part of a check that may only use the first frac of the soft
+// deadline (a later part needs the rest). Hitting it marks the run non-exhaustive as well.
+func (r *Run) ExpiredFrac(frac float64) bool {
+	total := r.deadline.Sub(r.start)
+	if time.Since(r.start) > time.Duration(float64(total)*frac) {
+		r.mu.Lock()
+		r.expired = true
+		r.Exhaustive = false
+		r.mu.Unlock()
+		return true
+	}
+	return false
+}
+
 func (r *Run) Note(format string, a ...any) {
 	s := fmt.Sprintf(format, a...)
 	r.mu.Lock()
